@@ -551,6 +551,10 @@ func RunHarness(g *Engine, h *HarnessRun) (*HarnessResult, error) {
 	if h.Solver == "" {
 		h.Solver = "z3-new"
 	}
+	if h.Portfolio == nil && !h.Arith {
+		// second opinions for queries the primary solver does not answer in time
+		h.Portfolio = []string{"cvc5-int", "z3"}
+	}
 	if h.QueryTimeoutMs == 0 {
 		h.QueryTimeoutMs = 30000
 	}
